@@ -6,8 +6,12 @@ import Slock.Model.Aof
 * `aofappend <cfgBuf> <rechex>:<dathex|x> <hex64>/<blobhex|n>,…` → `<rechex>:<dathex>` (reopen in append mode, write, close)
 * `aofwrites <cfgBuf> <hex64>/<blobhex|n>,…` → `rec:dat,…` sizes after each writer call
 * `aofdl <eflag> <E> <grant> <journal> <reload>` → `commandTime age stored skipped restoredExpried`
-* `aofcompact <cfgBuf> <cur> <keepIds,…|-> <name>=<hex> …` → directory after the tmp file is written and after each later
-  file-system mutation of a compaction; `keep r` = hex of bytes 20..52 of `r` (db, LockId, key) is in the list
+* `aofjournal <L|U>.<db>.<key>.<id>.<flag>.<aofFlag>.<eflag>.<stored>.<ctRel>.<count>.<rcount>.<valuehex|n>,…` → `recover` of the
+  journal: `<db>.<key>.<id>.<depth>.<count>.<rcount>.<eflag>.<deadline|inf>;…|<db>.<key>=<valuehex>;…`
+* `aofkeep <now> <view> <hex64>/<blob|n>` → 1|0: the compaction keeps the record (`keepRule`, after the expired-record filter)
+* `aofcompact <cfgBuf> <cur> <now> <view> <name>=<hex> …` → directory after the tmp file is written and after each later
+  file-system mutation of a compaction with `keep = keepRule now view`; `<view>` = `;`-separated keys
+  `<db>,<keyhex>,<valuehex|n>,<lockIdhex>:<deadline|inf>:<count>:<rcount>:<tflag>+…`
 * `aofrecover <cfgBuf> <now> <name>=<hex> …` → records recovered at start-up, or `finderr`
 -/
 namespace Driver
@@ -55,6 +59,67 @@ def sortDir (d : List (String × Bytes)) : List (String × Bytes) := (d.toArray.
 def showDir (d : Dir) : String :=
   if d.isEmpty then "-" else " ".intercalate ((sortDir (d.map (fun f => (f.1.show, f.2)))).map (fun f => f.1 ++ "=" ++ showHex f.2))
 
+def parseHold (s : String) : Option HoldView :=
+  match s.splitOn ":" with
+  | [id, d, c, r, t] => do
+    let id ← parseHex id
+    let c ← c.toNat?
+    let r ← r.toNat?
+    let t ← t.toNat?
+    if d == "inf" then pure ⟨id, none, c, r, t⟩ else do
+      let d ← d.toInt?
+      pure ⟨id, some d, c, r, t⟩
+  | _ => none
+
+def parseKeyView (s : String) : Option KeyView :=
+  match s.splitOn "," with
+  | [db, key, v, hs] => do
+    let db ← db.toNat?
+    let key ← parseHex key
+    let holds ← if hs == "" then some [] else (hs.splitOn "+").mapM parseHold
+    if v == "n" then pure ⟨db, key, none, holds⟩ else do
+      let v ← parseHex v
+      pure ⟨db, key, some v, holds⟩
+  | _ => none
+
+def parseView (s : String) : Option (List KeyView) :=
+  if s == "-" then some [] else (s.splitOn ";").mapM parseKeyView
+
+def parseHexNat (s : String) : Option Nat :=
+  if s.isEmpty then none else s.toList.foldl (fun acc c => acc.bind (fun n => (hexVal c).map (fun d => n * 16 + d))) (some 0)
+
+def showHexNat (n : Nat) : String :=
+  if n < 16 then String.singleton (hexDigit n) else
+    String.ofList ((Nat.toDigits 16 n))
+
+def parseJRec (s : String) : Option JRec :=
+  match s.splitOn "." with
+  | [k, db, key, id, flag, aflag, eflag, stored, ct, count, rcount, v] => do
+    let db ← db.toNat?
+    let key ← key.toNat?
+    let id ← id.toNat?
+    let flag ← parseHexNat flag
+    let aflag ← parseHexNat aflag
+    let eflag ← parseHexNat eflag
+    let stored ← stored.toNat?
+    let ct ← ct.toInt?
+    let count ← count.toNat?
+    let rcount ← rcount.toNat?
+    let data ← if v == "n" then some none else (parseHex v).map some
+    pure ⟨k == "L", db, key, id, flag, aflag, eflag, stored, ct, count, rcount, data⟩
+  | _ => none
+
+def parseJournal (s : String) : Option (List JRec) :=
+  if s == "-" then some [] else (s.splitOn ",").mapM parseJRec
+
+def showJState (st : JState) : String :=
+  let hs := (st.holds.toArray.qsort (fun a b => a.db < b.db || (a.db == b.db && (a.key < b.key || (a.key == b.key && a.id < b.id))))).toList
+  let vs := (st.values.toArray.qsort (fun a b => a.1.1 < b.1.1 || (a.1.1 == b.1.1 && a.1.2 < b.1.2))).toList
+  let h := if hs.isEmpty then "-" else ";".intercalate (hs.map (fun h =>
+    s!"{h.db}.{h.key}.{h.id}.{h.depth}.{h.count}.{h.rcount}.{showHexNat h.eflag}." ++ (match h.deadline with | none => "inf" | some d => toString d)))
+  let v := if vs.isEmpty then "-" else ";".intercalate (vs.map (fun p => s!"{p.1.1}.{p.1.2}=" ++ showHex p.2))
+  h ++ "|" ++ v
+
 def showImg (rec dat : Bytes) : String := showHex rec ++ ":" ++ showHex dat
 
 def handleAof : List String → Option String
@@ -82,13 +147,21 @@ def handleAof : List String → Option String
     let n ← n.toInt?
     let (ct, age, rem, sk, re) := journalReload ef e s c n
     pure (s!"{ct} {age} {rem} {if sk then 1 else 0} {re}")
-  | "aofcompact" :: cfg :: cur :: keepIds :: dir => do
+  | ["aofjournal", j] => do
+    let rs ← parseJournal j
+    pure (showJState (recover rs))
+  | ["aofkeep", now, view, rec] => do
+    let now ← now.toInt?
+    let view ← parseView view
+    let r ← parseRec rec
+    pure (if keepRule now view r && !(skipped r.buf now) then "1" else "0")
+  | "aofcompact" :: cfg :: cur :: now :: view :: dir => do
     let cfg ← cfg.toNat?
     let cur ← cur.toNat?
+    let now ← now.toInt?
+    let view ← parseView view
     let d ← parseDir dir
-    let ids := keepIds.splitOn ","
-    let keep := fun (r : Rec) => ids.contains (toHex ((r.buf.drop 20).take 33))
-    let steps := compactionSteps cfg 0 keep cur d
+    let steps := compactionSteps cfg now (keepRule now view) cur d
     -- observation points of the harness: after the tmp file is written, then after every remove / rename
     let nWrite := steps.length - (steps.filter (fun o => match o with | .remove _ => true | .rename _ _ => true | _ => false)).length
     let pts := (List.range (steps.length - nWrite + 1)).map (· + nWrite)
